@@ -67,6 +67,12 @@ def check_object(res, prop, sig, conds, queries, via):
     res.evals += 1
     try:
         bb = drive.parse_bb(sig, conds) if via == "parse" else drive.mkbb(sig, conds)
+        if via == "api-reversed":
+            # the parser's keys 1..n, but inserted into the dict in descending order (dict order is not key order)
+            from inference.belief_base import BeliefBase
+
+            items = list(drive.mkbb(sig, conds).conditionals.items())
+            bb = BeliefBase(list(sig), dict(reversed(items)), "kb")
         with counted_checks():
             obj = PreOCF.init_random_min_c_rep(bb)
         impacts = list(obj.save_impacts())
@@ -168,7 +174,7 @@ class C17(Check):
             "distinct_nontrivial = distinct (base, aspect) with a non-zero impact vector / a True c-inference / a front.")
     assumptions = ["reference: brute force over worlds and impact boxes; the box for the front contains the published bound and "
                    "every returned vector, so minimal elements of the box are globally Pareto-minimal",
-                   "keys 1..n (parser numbering) only"]
+                   "keys 1..n (parser numbering) only; a third of the bases has them inserted in descending order"]
 
     def tasks(self):
         quick = self.tier == "quick"
@@ -180,11 +186,11 @@ class C17(Check):
         q2 = scopes.semclass_reps(scopes.C2, scopes.SIG2)
         self.nb = len(b1) + len(reps2) + len(reps3)
         for i, conds in enumerate(b1 + [r[0] for r in reps2]):
-            out.append((scopes.SIG2, conds, q2 if not quick else q2[i % 2::2], "parse" if i % 3 == 0 else "api"))
+            out.append((scopes.SIG2, conds, q2 if not quick else q2[i % 2::2], "parse" if i % 3 == 0 else "api" if i % 3 == 1 else "api-reversed"))
         for i, (conds, _cls) in enumerate(reps3):
             sems = [forms.sem(x, scopes.SIG3) for x in conds]
             qs = [scopes.render_query(scopes.SIG3, vf) for vf in scopes.type_queries(sems, 8, 1, 1)][::2] + scopes.literal_queries3()[::4]
-            out.append((scopes.SIG3, conds, qs, "parse" if i % 3 == 1 else "api"))
+            out.append((scopes.SIG3, conds, qs, "parse" if i % 3 == 1 else "api" if i % 3 == 2 else "api-reversed"))
         return out
 
     def run(self, task):
